@@ -1,6 +1,10 @@
 package main
 
-import "strings"
+import (
+	"path/filepath"
+	"strings"
+	"time"
+)
 
 var codecTrusted = []string{"TLC 1.8.0 / SANY", "CommunityModules Json/IOUtils", "protobuf-go v1.34.0 dynamicpb + impl reflection (reference, second opinion on every event)", "harness projection (shifts/masks only)", "Go toolchain"}
 
@@ -51,6 +55,20 @@ func init() {
 		st := codecTraceRun(c, "pure", 8, 80, func(v CodecVerdict) bool { return v.Ev == "detn" })
 		c.R.Cov["detn_events"] = st.ByEv["detn"]
 		c.R.Assumptions = append(c.R.Assumptions, "Go map iteration order is randomised per range statement; each value is marshalled 6 times for each of 5 construction histories (30 marshals), maps have up to 9 keys")
+	}})
+	register(&Check{ID: "C07", Level: "model_checking", Run: func(c *Ctx) {
+		c.R.Trusted = append(codecTrusted, "Go reflect / unsafe for struct snapshots and in-place overwrites")
+		// the buffer-identity model
+		res, err := RunTLC(filepath.Join(c.S.Dir, "memtlc"), TLCOpts{Spec: "Mem", Cfg: "Mem.cfg", Workers: 2, Timeout: 10 * time.Minute, Env: map[string]string{"VERIF_ALIAS": "0"}})
+		if err != nil || res.Err != "" {
+			c.R.InternalErr("Mem.tla: %v %s", err, trunc(res.Err, 1000))
+		} else {
+			c.R.AddCount("states", res.Distinct)
+			c.R.AddCount("transitions", res.Generated)
+		}
+		codecTraceRun(c, "mem", 10, 120, func(v CodecVerdict) bool {
+			return v.Ev == "alias_in" || v.Ev == "alias_out" || v.Ev == "readonly"
+		})
 	}})
 	register(&Check{ID: "C14", Level: "model_checking", Run: func(c *Ctx) {
 		c.R.Trusted = codecTrusted
